@@ -46,7 +46,13 @@ def interpretation(m, meta):
     from term_image.image.common import _ALPHA_THRESHOLD
     tw, th = 80, 30      # the stub terminal of the test package
     bad = []
-    for h, w, v, hh, a in itertools.product(("", "<", "|", ">"), ("", "0", "7", "007"), ("", "^", "-", "_"), ("", "0", "3", "40"), ("", "#", "#.5", "#.0", "#a1B2c3", "##")):
+    alphas = {"": _ALPHA_THRESHOLD, "#": None, "#.5": 0.5, "#.0": 0.0, "#a1B2c3": "#a1B2c3", "##": "#", "#000000": "#000000", "#123456": "#123456"}
+    hex6, thr = _s(m, "hex6"), _s(m, "threshold_digits")      # the counterexample's own colour / threshold fields
+    if re.fullmatch(r"[0-9a-fA-F]{6}", hex6, re.ASCII):
+        alphas["#" + hex6] = "#" + hex6
+    if re.fullmatch(r"\.[0-9]+", thr, re.ASCII):
+        alphas["#" + thr] = float(thr)
+    for h, w, v, hh, a in itertools.product(("", "<", "|", ">"), ("", "0", "7", "007"), ("", "^", "-", "_"), ("", "0", "3", "40"), tuple(alphas)):
         if not v and not hh:
             spec = f"{h}{w}{a}"
         else:
@@ -60,7 +66,7 @@ def interpretation(m, meta):
         exp_w = wn if wn > 0 else max(tw + wn, 1)
         hn = int(hh) if hh else -2
         exp_h = hn if hn > 0 else max(th + hn, 1)
-        exp_a = {"": _ALPHA_THRESHOLD, "#": None, "#.5": 0.5, "#.0": 0.0, "#a1B2c3": "#a1B2c3", "##": "#"}[a]
+        exp_a = alphas[a]
         exp = (h or None, exp_w, v or None, exp_h, exp_a, {})
         if tuple(got) != exp:
             bad.append((spec, tuple(got), exp))
